@@ -71,7 +71,7 @@ def ops(tier):
         out.append((f"g0.{cname}.clear()", lambda u, C=C: C(u).clear()))
         out.append((f"g0.{cname}*=2", lambda u, C=C: C(u).__imul__(2)))
         out.append((f"g0.{cname}.reverse()", lambda u, C=C: C(u).reverse()))
-        out.append((f"g0.{cname}.sort(key=id)", lambda u, C=C: C(u).sort(key=id)))
+        out.append((f"g0.{cname}.sort(key=name)", lambda u, C=C: C(u).sort(key=lambda v: v.name or "")))
         out.append((f"del g0.{cname}[0:1]", lambda u, C=C: C(u).__delitem__(slice(0, 1))))
     # initializers
     def INIT(u):
